@@ -1,7 +1,7 @@
 /-
 C11 (part 4) — the question name off the wire is a bounded absolute name, hence the gate never
-panics and the zone selection theorems apply to every request; and what the verbatim echo of the
-question bytes means inside the response (finding `C11.CompressedQuestionEcho`).
+panics and the zone selection theorems apply to every request.  (What the echoed question means
+inside the response: `Proofs/C11Echo.lean`.)
 -/
 import HickoryVerif.Model.ServerGate
 import HickoryVerif.Proofs.C04Wire
@@ -177,76 +177,5 @@ theorem query_no_zone_refused (cfg : Config) (src : Ip) (buf : Bytes) {h : Heade
   obtain ⟨hb, hf⟩ := (readQueries_spec buf h.qd).2 q hq
   exact no_zone_refused cfg src buf hh hqr hop hq hacl he
     ((find_none_iff cfg.catalog hc q.name hb hf).2 hnone)
-
-/-! ### what the echoed question means inside the response
-
-The response carries `Queries::original` — the request's question *bytes* — behind a new header.
-Full-strength statement one would like (the response's question *decodes* to the request's
-question, for every request the server answers):
-
-    ∀ buf qd q, readQueries buf qd = .ok q → ∀ hdr' rest, hdr'.length = 12 →
-      readName (hdr' ++ q.raw ++ rest) 12 = .ok (q.name, 12 + (q.raw.length - 4))
-
-It is false: a question name may contain a compression pointer, which at offset 12 can only point
-into the header, and the response's header differs from the request's (QR is set, flags, counts).
-It holds under the decidable hypothesis that the question name is in plain wire form. -/
-
-theorem echo_decodes_same_partial (q : Question) (hb : Bounded q.name) (hf : q.name.fqdn = true)
-    (hp : plainQuestion q = true) (hdr' rest : Bytes) (h12 : hdr'.length = 12) :
-    readName (hdr' ++ q.raw ++ rest) 12 = .ok (q.name, 12 + (q.raw.length - 4)) := by
-  unfold plainQuestion at hp
-  have hw : q.raw.take (q.raw.length - 4) = Name.wire q.name := by simpa using hp
-  obtain ⟨bs, hbs, hrt⟩ := wire_roundtrip q.name hdr' (q.raw.drop (q.raw.length - 4) ++ rest) hb
-  have hbs' : bs = Name.wire q.name := by
-    unfold emitUncompressed at hbs
-    split at hbs
-    · cases hbs
-    · split at hbs
-      · cases hbs
-      · cases hbs; rfl
-  subst hbs'
-  have hsplit : hdr' ++ q.raw ++ rest
-      = hdr' ++ Name.wire q.name ++ (q.raw.drop (q.raw.length - 4) ++ rest) := by
-    rw [← hw]
-    simp only [List.append_assoc]
-    rw [← List.append_assoc (List.take _ _), List.take_append_drop]
-  rw [hsplit, ← h12, hrt]
-  have hlen : (Name.wire q.name).length = q.raw.length - 4 := by
-    rw [← hw, List.length_take]; omega
-  have hn : ({ q.name with fqdn := true } : Name) = q.name := by
-    rcases q with ⟨⟨l, f⟩, _, _, _⟩
-    simp only at hf
-    subst hf; rfl
-  rw [hn, hlen]
-
-/-- Counter-example outside the hypothesis (replay of finding `C11.CompressedQuestionEcho`):
-request `1234 0100 0001 0000 0000 0000 | c002 0001 0001` — the name is a pointer to the flags
-octets `01 00`, i.e. the one-label name `\000.`.  Behind the header of the REFUSED response
-(`1234 8105 0001 …`) the same bytes point at `81`, an invalid label type: the client cannot
-decode the question of the one response it gets. -/
-private def ceRequest : Bytes := [0x12, 0x34, 0x01, 0x00, 0, 1, 0, 0, 0, 0, 0, 0, 0xC0, 2, 0, 1, 0, 1]
-private def ceResponseHeader : Bytes := [0x12, 0x34, 0x81, 0x05, 0, 1, 0, 0, 0, 0, 0, 0]
-
-theorem echo_counterexample :
-    ∃ q, readQueries ceRequest 1 = .ok q ∧ plainQuestion q = false ∧
-      q.name = ⟨[[0]], true⟩ ∧ q.raw = [0xC0, 2, 0, 1, 0, 1] ∧
-      readName (ceResponseHeader ++ q.raw ++ []) 12 = .err := by
-  refine ⟨{ name := ⟨[[0]], true⟩, qtype := 1, qclass := 1, raw := [0xC0, 2, 0, 1, 0, 1] }, ?_,
-    by decide, rfl, rfl, ?_⟩
-  · simp [readQueries, readU16, readName, readLabels, ceRequest, extendName, Name.new, encodedLen,
-      dataLen, MAX_LENGTH, Name.len]
-  · simp [readName, readLabels, ceResponseHeader]
-
-/-- the counter-example is in the class the finding is filed under -/
-theorem echo_counterexample_in_class : compressedQuestionEcho ceRequest = true := by
-  simp [compressedQuestionEcho, readHeader, ceRequest, knownOpcode, plainQuestion, readQueries,
-    readU16, readName, readLabels, extendName, Name.new, encodedLen, dataLen, MAX_LENGTH, Name.len,
-    Name.wire, emitLabel]
-
--- non-vacuity of the partial theorem: `www.com. A IN` in plain wire form
-private def exPlain : Question :=
-  { name := ⟨[[119, 119, 119], [99, 111, 109]], true⟩, qtype := 1, qclass := 1,
-    raw := [3, 119, 119, 119, 3, 99, 111, 109, 0, 0, 1, 0, 1] }
-example : plainQuestion exPlain = true ∧ Bounded exPlain.name := by decide
 
 end HickoryVerif.C11
